@@ -16,6 +16,48 @@ Theorem C14_compat_patch_ignored : forall a b c c' h,
 Proof. exact compat_patch_ignored. Qed.
 Print Assumptions C14_compat_patch_ignored.
 
+(* the acceptance relation of the translated function is an order on (major, minor): reflexive, transitive,
+   antisymmetric up to patch, closed towards older requests and newer providers; every refusal returns 0 and
+   has one of the two stated causes *)
+Theorem C14_compat_refl : forall v, version_is_compatible v v = 1.
+Proof. exact compat_refl. Qed.
+Print Assumptions C14_compat_refl.
+
+Theorem C14_compat_trans : forall a b c,
+  version_is_compatible a b = 1 -> version_is_compatible b c = 1 -> version_is_compatible a c = 1.
+Proof. exact compat_trans. Qed.
+Print Assumptions C14_compat_trans.
+
+Theorem C14_compat_antisym_minor : forall a b,
+  version_is_compatible a b = 1 -> version_is_compatible b a = 1 ->
+  ix a 0 = ix b 0 /\ ix a 1 = ix b 1.
+Proof. exact compat_antisym_minor. Qed.
+Print Assumptions C14_compat_antisym_minor.
+
+Theorem C14_compat_older_request : forall want want' have,
+  version_is_compatible want have = 1 ->
+  ix want' 0 = ix want 0 -> ix want' 1 <= ix want 1 ->
+  version_is_compatible want' have = 1.
+Proof. exact compat_older_request. Qed.
+Print Assumptions C14_compat_older_request.
+
+Theorem C14_compat_newer_provider : forall want have have',
+  version_is_compatible want have = 1 ->
+  ix have' 0 = ix have 0 -> ix have 1 <= ix have' 1 ->
+  version_is_compatible want have' = 1.
+Proof. exact compat_newer_provider. Qed.
+Print Assumptions C14_compat_newer_provider.
+
+Theorem C14_compat_refused_iff : forall want have,
+  (ix want 0 <> ix have 0 \/ ix have 1 < ix want 1) <-> version_is_compatible want have = 0.
+Proof. exact compat_refused. Qed.
+Print Assumptions C14_compat_refused_iff.
+
+Example C14_ex_compat_order :
+  version_is_compatible [1; 4; 9] [1; 11; 0] = 1 /\ version_is_compatible [1; 12; 0] [1; 11; 0] = 0 /\
+  version_is_compatible [2; 0; 0] [1; 11; 0] = 0.
+Proof. vm_compute. repeat split. Qed.
+
 (* the runtime check returns normally exactly for parsable, compatible strings; otherwise it aborts *)
 Theorem C14_runtime_check_iff : forall s,
   ovni_version_check_str s = Ret tt <->
